@@ -16,7 +16,28 @@ PROP = "C11"
 
 def case_text(line):
     f = line.split()
-    return f[0], [int(x) for x in f[1:]]
+    nums = [int(x) for x in f[1:]]
+    if f and f[0] == "E" and nums:
+        # E <m> <start order cuts...> <code points>: the text under test is what follows the header
+        return f[0], nums[1 + nums[0]:]
+    return (f[0] if f else "U"), nums
+
+
+def edit_header(line):
+    f = line.split()
+    nums = [int(x) for x in f[1:]]
+    return nums[1:1 + nums[0]] if f and f[0] == "E" and nums else []
+
+
+def describe_history(line):
+    h = edit_header(line)
+    if not h:
+        return None
+    return ("document %s; the text is cut at character offsets %s (a cut between CR and LF moves behind the LF) and the "
+            "pieces are inserted by ranged Source::change calls %s; tokenised afterwards"
+            % (["opened empty", "opened with ASCII text and emptied by a ranged delete", "opened with the line `signal keep : bit;`, which stays (it is part of the final text)"][min(h[0], 2)],
+               h[2:], ["one after the other at the end", "last piece first, each at 0:0 (so the kept line, if any, ends up behind)",
+                       "first, last, then the middle ones"][min(h[1], 2)]))
 
 
 def describe(ctag, cps):
@@ -34,7 +55,7 @@ def printable(cps):
 
 def nontrivial(tag, cps, impl_diags):
     """multi-unit or non-ASCII character, TAB, CR, a lexical error, or a Latin-1 file case"""
-    return tag in ("L", "B") or bool(impl_diags) or any(c > 126 or c == 13 or c == 9 for c in cps)
+    return tag in ("L", "B", "E") or bool(impl_diags) or any(c > 126 or c == 13 or c == 9 for c in cps)
 
 
 def open_findings():
@@ -134,7 +155,7 @@ def compare(res, st, tag, cases, impl, model, sample_every, findings, seen_known
                     bad = "token position/lexeme property violated by the implementation: " + io[:300]
             if bad:
                 if len(pending["input"]) < 6:
-                    pending["input"].append((bad, {"kind": kind, "case": c, "text": describe(ctag, cps), "impl_tokens": it,
+                    pending["input"].append((bad, {"kind": kind, "case": c, "text": describe(ctag, cps), "edit_history": describe_history(c), "impl_tokens": it,
                                                    "impl_diagnostics": idg, "oracle": io, "model_tokens": mt,
                                                    "model_diagnostics": mdg,
                                                    "replay_cmd": "./check C11 --replay <this file>"}))
@@ -257,6 +278,9 @@ def main(tier, replay=None):
         # files on disk whose line endings (CRLF, CR, LF; Latin-1 high bytes next to them) fall on and around the
         # borders of 4 KiB .. 256 KiB blocks: the tokens behind the border are checked against the bytes of the file
         stream("borders", "borders_thorough" if tier == "thorough" else "borders", 0, 0)
+        # texts reached through an edit history (document opened empty / emptied / kept, then 1-4 ranged changes):
+        # tokens(history-built source) = lex_all(final text), oracle against the final text of the client
+        sampled += stream("edits", "edits", 0, 397)
     for what, obj in pending["input"]:
         res.violation(what, obj)
     for what, obj in pending["corr"]:
@@ -292,7 +316,10 @@ def main(tier, replay=None):
         "8 KiB, 64 KiB and 128 KiB borders, CR/LF at +-1, Latin-1 high bytes next to the border (thorough: 16/32/192/256 "
         "KiB too, all three line endings at all offsets); files above 16 KiB are checked by the oracle against the bytes "
         "of the file only (two of them also by the model). "
-        "non-trivial = the input has a non-ASCII or multi-unit character, TAB or CR, or a lexical diagnostic, or is a "
+        "`E` cases (one random text in eight, and the systematic stream `edits`: 14 texts x 3 start kinds (opened empty, "
+        "emptied by a ranged delete, ASCII line kept) x 3 insertion orders x every single cut and some double cuts): the "
+        "text is assembled by Source::change calls with a range and tokenised afterwards; oracle and model see the final "
+        "text. non-trivial = the input has a non-ASCII or multi-unit character, TAB or CR, or a lexical diagnostic, or is a "
         "file case; distinct by hash of the case line")
     res.coverage["trusted_base"] = TRUSTED_BASE_COMMON + [
         "characters are Unicode scalars in the model (UTF-8 byte offsets `idx` are computed from them); Latin-1 file "
